@@ -69,3 +69,64 @@ def findings(fn_node):
                 proj = [x for x in kc if x.startswith(a.id + ".") or x.startswith(a.id + "[") or ("(" + a.id + ")") in x]
                 out.append((node, cont, A.unparse(key), a.id, proj[0] if proj else None))
     return out
+
+
+def _is_lookup(e, ctext, ktext):
+    if isinstance(e, ast.Subscript) and A.unparse(e.value) == ctext and A.unparse(e.slice) == ktext:
+        return True
+    return isinstance(e, ast.Call) and isinstance(e.func, ast.Attribute) and e.func.attr == "get" and e.args and A.unparse(e.func.value) == ctext and A.unparse(e.args[0]) == ktext
+
+
+def _returns_lookup(fn, ctext, ktext):
+    """some ``return`` hands out what was found in the container under the key (directly or through one local)"""
+    via = {t.id for t, v, st in A.assignments(fn) if isinstance(t, ast.Name) and _is_lookup(v, ctext, ktext)}
+    for n in A.body_walk(fn):
+        if isinstance(n, ast.Return) and n.value is not None:
+            if _is_lookup(n.value, ctext, ktext) or (isinstance(n.value, ast.Name) and n.value.id in via):
+                return True
+    return False
+
+
+def param_omitted(fx):
+    """[(store node, container, key text, parameter)] — the function looks a key up in a container that outlives the call
+    (module level or on self) and stores a computed value under the same key; a *parameter* that the stored value depends
+    on (by data flow, or through a branch condition under which a part of it was built) is not an input of the key: a call
+    with another value of that parameter is served the remembered result of the first."""
+    fn = fx.fn
+    reads, stores = {}, []
+    for n in A.body_walk(fn):
+        if isinstance(n, ast.Subscript) and isinstance(n.ctx, ast.Load):
+            reads.setdefault(A.unparse(n.value), []).append(n.slice)
+        elif isinstance(n, ast.Compare) and len(n.ops) == 1 and isinstance(n.ops[0], (ast.In, ast.NotIn)):
+            reads.setdefault(A.unparse(n.comparators[0]), []).append(n.left)
+        elif isinstance(n, ast.Call) and isinstance(n.func, ast.Attribute) and n.func.attr == "get" and n.args:
+            reads.setdefault(A.unparse(n.func.value), []).append(n.args[0])
+        if isinstance(n, ast.Assign):
+            for t in n.targets:
+                if isinstance(t, ast.Subscript):
+                    stores.append((n, t.value, t.slice, n.value))
+        elif isinstance(n, ast.Call) and isinstance(n.func, ast.Attribute) and n.func.attr == "setdefault" and len(n.args) == 2:
+            stores.append((n, n.func.value, n.args[0], n.args[1]))
+    out = []
+    fx._reaching()
+    for node, cont, key, val in stores:
+        ctext = A.unparse(cont)
+        if ctext not in reads or not any(A.unparse(r) == A.unparse(key) for r in reads[ctext]):
+            continue
+        # the container must outlive the call: module level name, or attribute of self
+        root = cont
+        while isinstance(root, (ast.Attribute, ast.Subscript)):
+            root = root.value
+        if not isinstance(root, ast.Name):
+            continue
+        if root.id in fx.local_names and root.id != fx.selfname:
+            continue
+        if not _returns_lookup(fn, ctext, A.unparse(key)):
+            continue  # not "answer from the container when the key is there": a plain table update
+        ksrc = fx.sources(key, node)
+        vsrc = fx.sources_with_control(val, node)
+        # a chained store `a = memo[k] = f(...)` : the value expression is the same; a Name value is followed by sources()
+        for t in sorted(vsrc - ksrc):
+            if t.startswith("param:") and t[6:] not in (fx.selfname, "cls"):
+                out.append((node, ctext, A.unparse(key), t[6:]))
+    return out
